@@ -23,7 +23,8 @@ CMS = '<mithril_aggregator::multi_signer::MultiSignerImpl as mithril_aggregator:
 
 
 def has(og, pat):
-    return any(glob_match(pat, o) for o in og)
+    # a field path under the named origin also counts (getters spliced by the inliner make origins more precise)
+    return any(glob_match(pat, o) or (pat[-1] != '*' and glob_match(pat + '.*', o)) for o in og)
 
 
 def run(ctx):
@@ -220,7 +221,8 @@ def run(ctx):
             tgt = a[1][0] if a[0] in ('copy', 'move') else None
             seq_ok = tgt is not None and tgt in flows_forward(body, {2}, True, avoid_types=LOSSY_COLLECTIONS)
             # closures that handle the items must not build such collections either
-            lossy_locals = [l for l, (ty, nm) in enumerate(body.locals) if any(x in ty for x in LOSSY_COLLECTIONS)
+            # (collections OF signatures: other maps/sets in spliced helpers, e.g. the registration set, are not in the way)
+            lossy_locals = [l for l, (ty, nm) in enumerate(body.locals) if any(x in ty for x in LOSSY_COLLECTIONS) and 'Signature' in ty
                             and l in flows_forward(body, {2}, True)]
             inst = 'aggregate_signatures: every input signature is handed to the selection (no pre-verification de-duplication)'
             if seq_ok and not lossy_locals:
